@@ -739,7 +739,9 @@ class Explorer:
     self.level += 1
 
   def decide(self, cond) -> bool:
-    cond = intify(z3.simplify(cond))
+    return self._decide_raw(intify(z3.simplify(cond)))
+
+  def _decide_raw(self, cond) -> bool:
     if z3.is_true(cond):
       return True
     if z3.is_false(cond):
@@ -768,7 +770,9 @@ class Explorer:
     return taken
 
   def assume(self, c):
-    c = intify(z3.simplify(zbool(c)))
+    return self._assume_raw(intify(z3.simplify(zbool(c))))
+
+  def _assume_raw(self, c):
     if z3.is_true(c):
       return
     i = self.pos
@@ -824,10 +828,15 @@ class Explorer:
     """symbolic selector in [0,n): returns a concrete int, forking on first use"""
     if n == 1:
       return 0
-    v = z3.Int(name)
-    self.assume(z3.And(v >= 0, v < n))
+    cache = self.__dict__.setdefault("_choice_terms", {})
+    ent = cache.get((name, n))
+    if ent is None:
+      v = z3.Int(name)
+      ent = cache[(name, n)] = (intify(z3.simplify(z3.And(v >= 0, v < n))),
+                                [intify(z3.simplify(v == k)) for k in range(n - 1)])
+    self._assume_raw(ent[0])
     for k in range(n - 1):
-      if self.decide(v == k):
+      if self._decide_raw(ent[1][k]):
         return k
     return n - 1
 
